@@ -13,7 +13,7 @@
 //   - every local object of the callee (parameters, results, variables, labels) is renamed with
 //     a suffix unique to the expansion site; a site is skipped when a package-level or universe
 //     name the callee refers to is declared locally anywhere in the calling function, or when
-//     an imported package name is not imported under the same name by the calling file;
+//     an imported package name means something else in the calling file (a missing import is added);
 //   - callees that defer, recover or start goroutines, are variadic, generic or (mutually)
 //     recursive are never expanded, except `defer f(x)` / `go f(x)` itself, where f is replaced
 //     by a function literal with f's signature and body.
@@ -38,6 +38,7 @@ import (
 	"go/types"
 	"reflect"
 	"sort"
+	"strconv"
 	"strings"
 
 	"golang.org/x/tools/go/ast/astutil"
@@ -138,6 +139,7 @@ type Report struct {
 	Rounds     int
 	Failed     string   // normalisation was abandoned (the source is analysed as written)
 	Renamed    []string // "known key -> new key": treated as the known function
+	Types      []string // type rewrites (two-valued enumerations, structs written out in their holders)
 	Split      []string // "function.variable": local struct variables replaced by one variable per field
 }
 
@@ -165,6 +167,10 @@ type norm struct {
 	closureOf   map[*types.Var]*types.Func // local function literals treated as helpers (per round)
 	closureDef  map[*types.Func]ast.Stmt
 	closureLit  map[*types.Func]*ast.FuncLit
+
+	dirty        map[*ast.FuncDecl]bool // rewritten by a local pass in this round
+	addedImports map[*ast.File]map[string]bool
+	addedName    map[*ast.ImportSpec]string
 }
 
 // Normalize rewrites files in place. It returns the package and info of the final type check
@@ -175,6 +181,31 @@ func Normalize(fset *token.FileSet, files []*ast.File, pkg *types.Package, info 
 		known[k] = true
 	}
 	n := &norm{fset: fset, files: files, pkg: pkg, info: info, known: known, rep: &Report{Expanded: map[string]int{}}, skipOnce: map[string]bool{}, plumbing: Plumbing()}
+	rawCheck := check
+	check = func(fs []*ast.File) (*types.Package, *types.Info, error) {
+		undo := n.pruneImports(fs)
+		p, i, err := rawCheck(fs)
+		if err != nil {
+			undo()
+		}
+		return p, i, err
+	}
+	// type surgery first: it moves methods between receivers and changes signatures
+	for i := 0; i < 24; i++ {
+		done := n.typeSurgery()
+		if len(done) == 0 {
+			break
+		}
+		n.rep.Types = append(n.rep.Types, done...)
+		n.simplifyBoolFlow()
+		p2, i2, err := check(files)
+		if err != nil {
+			return nil, nil, n.rep, fmt.Errorf("normalised source does not type-check after type rewriting (%s): %v", strings.Join(done, "; "), err)
+		}
+		n.pkg, n.info = p2, i2
+		pkg, info = p2, i2
+		n.rep.Rounds++
+	}
 	// a known function that was merely renamed keeps its role: a declaration outside the table
 	// whose receiver and signature are those of a known function that is absent from the tree
 	// is treated as that function
@@ -374,6 +405,7 @@ func (n *norm) collect() {
 	n.fileOf = map[*ast.FuncDecl]*ast.File{}
 	n.leaf = map[*types.Func]bool{}
 	n.closureOf, n.closureDef, n.closureLit = nil, nil, nil
+	n.dirty = map[*ast.FuncDecl]bool{}
 	n.defOf = map[types.Object]*ast.Ident{}
 	for id, o := range n.info.Defs {
 		if o != nil {
@@ -460,6 +492,9 @@ func (n *norm) calleeOf(c *ast.CallExpr) *types.Func {
 
 // eligible: may the body of d be expanded in a non-defer context?
 func (n *norm) eligible(d *ast.FuncDecl) string {
+	if n.dirty[d] {
+		return "rewritten in this round (no type information for its new parts yet)"
+	}
 	if d.Type.TypeParams != nil && len(d.Type.TypeParams.List) > 0 {
 		return "generic"
 	}
@@ -512,8 +547,14 @@ func (n *norm) round() (bool, error) {
 			localNames := n.localNames(fd)
 			n.curFn = fd
 			if !n.inGenerated {
+				if n.devirtualise(fd, file) {
+					changed = true
+					n.dirty[fd] = true
+					continue // the rewritten selections need fresh type information
+				}
 				if n.inlineMethodValues(fd) {
 					changed = true
+					n.dirty[fd] = true
 				}
 				n.registerClosures(fd, file)
 			}
@@ -770,7 +811,7 @@ func (n *norm) compatible(d *ast.FuncDecl, callerFile *ast.File, localNames map[
 			return true
 		}
 		if pn, ok := o.(*types.PkgName); ok {
-			if callerFile != calleeFile && !importsAs(n.info, callerFile, pn) {
+			if callerFile != calleeFile && !importsAs(n.info, callerFile, pn) && !n.addImport(callerFile, pn) {
 				why = "calling file does not import " + pn.Imported().Path() + " as " + pn.Name()
 			}
 			if localNames[id.Name] {
@@ -786,6 +827,143 @@ func (n *norm) compatible(d *ast.FuncDecl, callerFile *ast.File, localNames map[
 		return true
 	})
 	return why
+}
+
+// addImport gives the calling file the import the callee's text needs (a helper gathered into
+// another file takes its imports with it). Refused when the name means something else there.
+// Imports that end up unused are removed again before the next type check.
+func (n *norm) addImport(f *ast.File, pn *types.PkgName) bool {
+	key := pn.Imported().Path() + " as " + pn.Name()
+	if n.addedImports[f][key] {
+		return true
+	}
+	if n.pkg.Scope().Lookup(pn.Name()) != nil {
+		return false
+	}
+	for _, spec := range f.Imports {
+		var o types.Object
+		if spec.Name != nil {
+			o = n.info.Defs[spec.Name]
+			if spec.Name.Name == "." {
+				return false
+			}
+		} else {
+			o = n.info.Implicits[spec]
+		}
+		if p, ok := o.(*types.PkgName); ok && p.Name() == pn.Name() {
+			return false
+		}
+	}
+	spec := &ast.ImportSpec{Path: &ast.BasicLit{Kind: token.STRING, Value: strconv.Quote(pn.Imported().Path())}}
+	if pn.Name() != pn.Imported().Name() {
+		spec.Name = ast.NewIdent(pn.Name())
+	}
+	f.Imports = append(f.Imports, spec)
+	f.Decls = append([]ast.Decl{&ast.GenDecl{Tok: token.IMPORT, Specs: []ast.Spec{spec}}}, f.Decls...)
+	if n.addedImports == nil {
+		n.addedImports = map[*ast.File]map[string]bool{}
+	}
+	if n.addedImports[f] == nil {
+		n.addedImports[f] = map[string]bool{}
+	}
+	n.addedImports[f][key] = true
+	if n.addedName == nil {
+		n.addedName = map[*ast.ImportSpec]string{}
+	}
+	n.addedName[spec] = pn.Name()
+	return true
+}
+
+// pruneImports removes imports no selector uses any more (a helper that was expanded and
+// removed leaves its file's import behind; an added import may have stayed unused). It returns
+// the function that undoes the removal.
+func (n *norm) pruneImports(files []*ast.File) func() {
+	type saved struct {
+		f       *ast.File
+		imports []*ast.ImportSpec
+		decls   []ast.Decl
+	}
+	var undo []saved
+	for _, f := range files {
+		if isGenerated(f) {
+			continue
+		}
+		usedNames := map[string]bool{}
+		ast.Inspect(f, func(x ast.Node) bool {
+			if se, ok := x.(*ast.SelectorExpr); ok {
+				if id, ok := se.X.(*ast.Ident); ok {
+					usedNames[id.Name] = true
+				}
+			}
+			return true
+		})
+		dead := map[ast.Spec]bool{}
+		for _, spec := range f.Imports {
+			name := ""
+			switch {
+			case spec.Name != nil:
+				name = spec.Name.Name
+			case n.addedName[spec] != "":
+				name = n.addedName[spec]
+			default:
+				if pn, ok := n.info.Implicits[spec].(*types.PkgName); ok {
+					name = pn.Name()
+				}
+			}
+			if name == "" || name == "_" || name == "." || usedNames[name] {
+				continue
+			}
+			dead[spec] = true
+		}
+		if len(dead) == 0 {
+			continue
+		}
+		undo = append(undo, saved{f, f.Imports, f.Decls})
+		var imps []*ast.ImportSpec
+		for _, spec := range f.Imports {
+			if !dead[spec] {
+				imps = append(imps, spec)
+			} else {
+				p, _ := strconv.Unquote(spec.Path.Value)
+				for k := range n.addedImports[f] {
+					if strings.HasPrefix(k, p+" as ") {
+						delete(n.addedImports[f], k)
+					}
+				}
+			}
+		}
+		f.Imports = imps
+		var decls []ast.Decl
+		for _, d := range f.Decls {
+			gd, ok := d.(*ast.GenDecl)
+			if !ok || gd.Tok != token.IMPORT {
+				decls = append(decls, d)
+				continue
+			}
+			var specs []ast.Spec
+			for _, sp := range gd.Specs {
+				if !dead[sp] {
+					specs = append(specs, sp)
+				}
+			}
+			if len(specs) == 0 {
+				continue
+			}
+			if len(specs) != len(gd.Specs) {
+				cp := *gd
+				cp.Specs = specs
+				decls = append(decls, &cp)
+				continue
+			}
+			decls = append(decls, d)
+		}
+		f.Decls = decls
+	}
+	return func() {
+		for _, u := range undo {
+			u.f.Imports, u.f.Decls = u.imports, u.decls
+		}
+	}
 }
 
 func importsAs(info *types.Info, f *ast.File, pn *types.PkgName) bool {
@@ -1832,9 +2010,19 @@ func (n *norm) aliasable(id *ast.Ident, want types.Type) bool {
 			for {
 				switch x := e.(type) {
 				case *ast.SelectorExpr:
+					if t := n.info.TypeOf(x.X); t != nil {
+						if _, isStruct := t.Underlying().(*types.Struct); !isStruct {
+							return false // through a pointer: not the variable's own storage
+						}
+					}
 					e = ast.Unparen(x.X)
 					continue
 				case *ast.IndexExpr:
+					if t := n.info.TypeOf(x.X); t != nil {
+						if _, isArr := t.Underlying().(*types.Array); !isArr {
+							return false // an element of a slice or map the variable refers to
+						}
+					}
 					e = ast.Unparen(x.X)
 					continue
 				}
@@ -2192,16 +2380,31 @@ func (n *norm) inlineMethodValues(fd *ast.FuncDecl) bool {
 		if id == nil || id.Name == "_" {
 			return true
 		}
+		// a conversion to a named function type keeps the function
+		if conv, isCall := ast.Unparen(rhs).(*ast.CallExpr); isCall && len(conv.Args) == 1 {
+			if tv, ok := n.info.Types[conv.Fun]; ok && tv.IsType() {
+				if _, isSig := tv.Type.Underlying().(*types.Signature); isSig {
+					rhs = conv.Args[0]
+				}
+			}
+		}
+		v, ok := n.info.Defs[id].(*types.Var)
+		if !ok {
+			return true
+		}
+		if gid, isId := ast.Unparen(rhs).(*ast.Ident); isId {
+			// a declared function under a local name
+			if g, ok := n.info.Uses[gid].(*types.Func); ok && g.Parent() == n.pkg.Scope() && declCount[gid.Name] == 0 {
+				found = append(found, &mv{v: v, meth: gid.Name, def: def})
+			}
+			return true
+		}
 		sel, ok := ast.Unparen(rhs).(*ast.SelectorExpr)
 		if !ok {
 			return true
 		}
 		s := n.info.Selections[sel]
 		if s == nil || s.Kind() != types.MethodVal || !stable(sel.X) {
-			return true
-		}
-		v, ok := n.info.Defs[id].(*types.Var)
-		if !ok {
 			return true
 		}
 		found = append(found, &mv{v: v, recv: sel.X, meth: sel.Sel.Name, def: def})
@@ -2246,14 +2449,30 @@ func (n *norm) inlineMethodValues(fd *ast.FuncDecl) bool {
 				return true
 			}
 			if cid, isId := ast.Unparen(call.Fun).(*ast.Ident); isId && calls[cid] {
-				call.Fun = &ast.SelectorExpr{X: copyExpr(m.recv), Sel: ast.NewIdent(m.meth)}
+				if m.recv == nil {
+					call.Fun = ast.NewIdent(m.meth)
+				} else {
+					call.Fun = &ast.SelectorExpr{X: copyExpr(m.recv), Sel: ast.NewIdent(m.meth)}
+				}
 			}
 			return true
 		})
-		// keep the definition used
+		// the definition and its blank uses go (nothing calls through the variable any more; the
+		// bound function would otherwise look referenced as a value)
 		astutil.Apply(fd.Body, nil, func(c *astutil.Cursor) bool {
-			if st, ok := c.Node().(ast.Stmt); ok && st == m.def && c.Index() >= 0 {
-				c.InsertAfter(&ast.AssignStmt{Lhs: []ast.Expr{ast.NewIdent("_")}, Tok: token.ASSIGN, Rhs: []ast.Expr{ast.NewIdent(m.v.Name())}})
+			if c.Index() < 0 {
+				return true
+			}
+			if st, ok := c.Node().(ast.Stmt); ok && st == m.def {
+				c.Delete()
+				return true
+			}
+			if as, ok := c.Node().(*ast.AssignStmt); ok && as.Tok == token.ASSIGN && len(as.Lhs) == 1 && len(as.Rhs) == 1 {
+				if l, ok := as.Lhs[0].(*ast.Ident); ok && l.Name == "_" {
+					if rid, ok := as.Rhs[0].(*ast.Ident); ok && blank[rid] && n.info.Uses[rid] == types.Object(m.v) {
+						c.Delete()
+					}
+				}
 			}
 			return true
 		})
@@ -2295,11 +2514,23 @@ func (n *norm) paramsNotCopyFree(d *ast.FuncDecl) map[string]bool {
 		e = ast.Unparen(e)
 		direct := true
 		for {
+			// every step must stay inside the variable's own storage: a field of a struct value,
+			// an element of an array value (not through a pointer, slice or map on the way)
 			switch x := e.(type) {
 			case *ast.SelectorExpr:
+				if t := n.info.TypeOf(x.X); t != nil {
+					if _, isStruct := t.Underlying().(*types.Struct); !isStruct {
+						return "", false
+					}
+				}
 				e, direct = ast.Unparen(x.X), false
 				continue
 			case *ast.IndexExpr:
+				if t := n.info.TypeOf(x.X); t != nil {
+					if _, isArr := t.Underlying().(*types.Array); !isArr {
+						return "", false
+					}
+				}
 				e, direct = ast.Unparen(x.X), false
 				continue
 			}
